@@ -244,6 +244,7 @@ class Canon:
             self.assign_forms(body)
             self.match_ints(body)
             self.match_bools(body)
+            self.continue_guards(body)
             self.if_assign(body)
             self.mem_replace(body)
             self.loop_to_while(body)
@@ -1474,6 +1475,42 @@ class Canon:
                 blk["stmts"] = [s_ for s_ in blk["stmts"] if not s_.get("canon_dead")]
 
     # ------------------------------------------------------------------ P8
+    def continue_guards(self, body):
+        """In a loop body:  `if c { continue; }  rest`  ->  `if !c { rest }`  (the un-nested spelling of a filter)."""
+        again = True
+        while again:
+            again = False
+            for lp in [n for n in _walk(body) if n.get("k") in ("For", "While", "Loop")]:
+                blk = lp.get("body")
+                if not isinstance(blk, dict) or blk.get("k") != "Block":
+                    continue
+                sts = blk.get("stmts", [])
+                for i, st in enumerate(sts):
+                    e = _strip(st.get("e") or {}) if st.get("k") in ("Semi", "Expr") else {}
+                    if e.get("k") != "If" or e.get("else") is not None or e.get("m") or (isinstance(e.get("cond"), dict) and e["cond"].get("k") == "LetCond"):
+                        continue
+                    th = _strip(e["then"])
+                    only = th.get("k") == "Block" and not th.get("expr") and len(th.get("stmts", [])) == 1 and _strip(th["stmts"][0].get("e") or {}).get("k") == "Continue" and \
+                        not _strip(th["stmts"][0]["e"]).get("label")
+                    if not only:
+                        continue
+                    rest = sts[i + 1:]
+                    if not rest and blk.get("expr") is None:
+                        break
+                    if any(x.get("k") == "Let" for x in rest) and any(True for _ in ()):
+                        pass
+                    sp = list(e.get("sp") or [0, 0, 0, 0])
+                    neg = {"k": "Unary", "op": "!", "e": e["cond"], "id": self._id(), "ty": "bool", "sp": list(e["cond"].get("sp") or sp)}
+                    inner = {"k": "Block", "stmts": rest, "expr": blk.get("expr"), "id": self._id(), "ty": "()", "sp": list((rest[0] if rest else blk["expr"]).get("sp") or sp)}
+                    new_if = {"k": "If", "cond": neg, "then": inner, "else": None, "id": self._id(), "ty": "()", "sp": sp}
+                    blk["stmts"] = sts[:i] + [{"k": "Semi", "e": new_if, "sp": sp}]
+                    blk["expr"] = None
+                    self.stats["continue_guards"] = self.stats.get("continue_guards", 0) + 1
+                    again = True
+                    break
+                if again:
+                    break
+
     def match_bools(self, body):
         """`match c { true => A, false => B }` (either order, or `_` for the second)  ->  `if c { A } else { B }`;  and as a statement
         `if c { <diverges> } else { B }`  ->  `if c { <diverges> }  B`: the fall-through work after the guard."""
@@ -1547,6 +1584,18 @@ class Canon:
             if len(arms) < 2 or any(a.get("guard") is not None for a in arms):
                 continue
             lits, last = arms[:-1], arms[-1]
+            if last["pat"].get("k") == "Bind" and not last["pat"].get("byref") and not last["pat"].get("sub"):
+                # `other => body`: the catch-all arm that names the value:  `_ => { let other = s; body }`
+                lb = last["body"]
+                lsp = list(lb.get("sp") or n.get("sp") or [0, 0, 0, 0])
+                let_ = {"k": "Let", "pat": last["pat"], "init": copy.deepcopy(sc), "sp": [lsp[0], lsp[1] - 0.0002, lsp[0], lsp[1] - 0.0001]}
+                b0 = _strip(lb)
+                if b0.get("k") == "Block" and not b0.get("m"):
+                    b0["stmts"] = [let_] + list(b0.get("stmts", []))
+                else:
+                    unit = str(b0.get("ty")) in ("()", "!")
+                    last["body"] = {"k": "Block", "stmts": [let_] + ([{"k": "Semi", "e": lb, "sp": lsp}] if unit else []), "expr": None if unit else lb, "id": self._id(), "ty": b0.get("ty"), "sp": lsp}
+                last["pat"] = {"k": "Wild"}
             if last["pat"].get("k") != "Wild":
                 continue
             if not all(a["pat"].get("k") == "PatExpr" and str(a["pat"].get("lit", "")).lstrip("-").isdigit() for a in lits):
